@@ -20,7 +20,7 @@ import (
 
 type channel struct {
 	mu                    sync.RWMutex
-	initMu                sync.Mutex // serializes the registration of tracks (start time, track table, MPD)
+	initMu                sync.Mutex // serializes the registration of tracks and the channel's own MPD updates
 	name                  string
 	dir                   string
 	authUser              string
@@ -318,7 +318,9 @@ func (ch *channel) receivedSegData(rsd recSegData) {
 		}
 		if newSeqNr != 0 {
 			nowMS := time.Now().UnixNano() / 1_000_000
+			ch.initMu.Lock() // the MPD must not get a new track while it is cloned
 			err := ch.segTimesGen.generateSegmentTimelineNrMPD(log, newSeqNr, ch, nowMS)
+			ch.initMu.Unlock()
 			if err != nil {
 				log.Error("Failed to generate segment times", "err", err)
 			}
@@ -361,9 +363,11 @@ func (ch *channel) receivedSegData(rsd recSegData) {
 							"seqNrShift", ch.masterSeqNrShift, "timeShift", ch.masterTimeShift)
 					}
 					ch.mu.Unlock()
+					ch.initMu.Lock() // the MPD must not get a new track while it is updated and written
 					ch.deriveAndSetBitrates()
 					ch.deriveAndSetFrameRates(log)
 					err = ch.updateAndWriteMPD(log)
+					ch.initMu.Unlock()
 					if err != nil {
 						log.Error("failed to write MPD", "err", err)
 					}
